@@ -394,8 +394,8 @@ KERNELS = [k_binary_arith, k_unary_app, k_binary_relation]
 
 
 def families(ctx):
-    from . import arms
-    return [(mk.__name__, (lambda mk=mk: run_kernel(ctx, mk(ctx)))) for mk in KERNELS] + arms.families(ctx)
+    from . import arms, like
+    return [(mk.__name__, (lambda mk=mk: run_kernel(ctx, mk(ctx)))) for mk in KERNELS] + arms.families(ctx) + like.families(ctx)
 
 
 def run(ctx):
@@ -407,8 +407,8 @@ def run(ctx):
     ctx.assumptions += ['EvaluationError constructors (type_error_single) and derive-generated From<..> for EvaluationError are opaque logged constructors',
                         'symbolic Value = opaque struct with lazily created ValueKind / Literal discriminants and payloads',
                         'replay through cedar_policy::eval_expression on concretised operands']
-    ctx.assumptions += ['Evaluator::partial_interpret on sub-expressions, Entities::entity, Entity::{get,get_tag}, BTreeMap::get, Set::{contains,is_subset,is_disjoint}, Pattern::wildcard_match, eval_in: environment stubs (logged)',
-                        'structural equality of Values, the set algorithms, the wildcard matcher, eval_in\'s loop, record/set construction, extension calls and parser/EST equivalence are NOT covered']
+    ctx.assumptions += ['Evaluator::partial_interpret on sub-expressions, Entities::entity, Entity::{get,get_tag}, BTreeMap::get, Set::{contains,is_subset,is_disjoint}, eval_in: environment stubs (logged) in the arm obligations; Pattern::wildcard_match is a stub there and has its own bounded obligation (like.py)',
+                        'structural equality of Values, the set algorithms, record/set construction, extension calls and parser/EST equivalence are NOT covered']
     return ctx.finish('Solver-decided operator semantics of the evaluator, executed from the MIR of the current tree: the scalar kernels (unary_app, binary_arith, binary_relation) over arbitrary Values, and every '
                       'dispatching arm of partial_interpret_internal / eval_if / get_attr over arbitrary sub-expression outcomes: evaluation order, short-circuiting, which error surfaces, type errors, has on absent entities, '
                       'operand roles handed to the kernels, and the residual built when an operand is unknown.')
